@@ -36,7 +36,7 @@ pub fn isolate_git_env() {
 pub struct Repo {
     pub dir: PathBuf,
     pub hashes: Vec<String>, // commit c -> hash at index c-1
-    pub policy: u8,          // 0 increasing, 1 decreasing, 2 constant commit times
+    pub policy: u8,          // 0 increasing, 1 decreasing, 2 constant commit times, 3 counting up from the epoch (0, 1, 2, ...)
 }
 
 impl Drop for Repo {
@@ -50,7 +50,9 @@ impl Repo {
         match self.policy {
             0 => BASE_TIME + 100 * c as i64,
             1 => BASE_TIME - 100 * c as i64,
-            _ => BASE_TIME,
+            2 => BASE_TIME,
+            // from the Unix epoch itself: the root commit has time 0, the next ones 1, 2, ...
+            _ => c as i64 - 1,
         }
     }
 
@@ -58,7 +60,7 @@ impl Repo {
         let mut cmd = Command::new("git");
         cmd.args(args).current_dir(&self.dir);
         if let Some(d) = date {
-            let s = format!("{d} +0000");
+            let s = format!("@{d} +0000");
             cmd.env("GIT_AUTHOR_DATE", &s).env("GIT_COMMITTER_DATE", &s);
         }
         let out = cmd.output().map_err(|e| e.to_string())?;
@@ -347,7 +349,7 @@ pub fn replay(args: &[String]) {
     let results = par_map(&cases, |case| {
         let ops = arr(&case["ops"]);
         let text = ops_text(&ops);
-        let policy = (text.len() % 3) as u8;
+        let policy = (text.len() % 4) as u8;
         let mut repo = Repo::new(policy);
         for o in &ops {
             if let Err(e) = repo.apply(o["op"].as_str().unwrap(), &o["arg"]) {
@@ -408,7 +410,7 @@ pub fn record(args: &[String]) {
     let seeds: Vec<u64> = (0..sessions as u64).map(|i| seed.wrapping_mul(1_000_003).wrapping_add(i)).collect();
     let traces = par_map(&seeds, |s| {
         let mut rng = StdRng::seed_from_u64(*s);
-        let mut repo = Repo::new(rng.gen_range(0..3));
+        let mut repo = Repo::new(rng.gen_range(0..4));
         let mut events = vec![json!({"k": "reset"})];
         let mut branches: Vec<String> = vec!["main".into()];
         let mut tags: Vec<String> = vec![];
